@@ -184,6 +184,9 @@ func runC02(c *Ctx) {
 			for _, k := range tf.DecAdds {
 				has[k] = true
 			}
+			if tf.DecAddNarrow {
+				bad = append(bad, "the decoder's epoch arithmetic is performed in a 32-bit / unsigned type: times before 1970 wrap around by 2^32 seconds")
+			}
 			if !has[-2208988800] || !has[2085978496] {
 				bad = append(bad, fmt.Sprintf("the decoder's epoch arithmetic uses %v, expected −2208988800 (era 0) and +2085978496 (era 1 after 2036)", tf.DecAdds))
 			}
@@ -292,7 +295,10 @@ func (c *Ctx) c02NewAVP() {
 }
 
 // c02Padding: after the payload copy the Padding() bytes following it are stored as zero.
-func (c *Ctx) c02Padding(aw *ssa.Function) {
+func (c *Ctx) c02Padding(aw *ssa.Function) { c.paddingZeroed(aw, "R4") }
+
+// paddingZeroed: shared clause of C02 (R4) and C01 (R3).
+func (c *Ctx) paddingZeroed(aw *ssa.Function, rule string) {
 	r := c.R
 	key := fname(aw) + ":padding-zeroed"
 	// a loop storing constant 0 into b'[i] for i in [0, Padding()) where b' = b[hl+len(payload):]
@@ -359,7 +365,7 @@ func (c *Ctx) c02Padding(aw *ssa.Function) {
 		}
 	})
 	// the zeroing must be reached on every path after the payload copy
-	r.Check(good, "R4", key, c.fpos(aw), "bytes [hl+len(payload), +Padding()) are stored as 0 in an unconditional loop", why)
+	r.Check(good, rule, key, c.fpos(aw), "bytes [hl+len(payload), +Padding()) are stored as 0 in an unconditional loop", why)
 }
 
 // c02LengthBookkeeping: R6.
@@ -449,6 +455,44 @@ func (c *Ctx) c02LengthBookkeeping() {
 	}
 	if n == 0 {
 		r.Undecided("R6", "role:mutators", "-", "no function storing to Message.AVP outside the read path")
+	}
+	// (*AVP).Len = header + Data.Len() + Data.Padding() computed from the live value (shared clause with C01 R4)
+	if al := c.P.Method("diam", "AVP", "Len"); al != nil {
+		rv := singleReturn(al)
+		hasLen, hasPad, hasHdr, other := false, false, false, false
+		var walk func(v ssa.Value, d int)
+		walk = func(v ssa.Value, d int) {
+			if d > 6 {
+				return
+			}
+			switch x := v.(type) {
+			case *ssa.BinOp:
+				if x.Op != token.ADD {
+					other = true
+				}
+				walk(x.X, d+1)
+				walk(x.Y, d+1)
+			case *ssa.Call:
+				switch {
+				case x.Call.IsInvoke() && x.Call.Method.Name() == "Len":
+					hasLen = true
+				case x.Call.IsInvoke() && x.Call.Method.Name() == "Padding":
+					hasPad = true
+				default:
+					if g := flow.StaticCallee(x); g != nil && g.Signature.Recv() != nil {
+						hasHdr = true
+					} else {
+						other = true
+					}
+				}
+			default:
+				other = true
+			}
+		}
+		if rv != nil {
+			walk(rv, 0)
+		}
+		r.Check(rv != nil && hasLen && hasPad && hasHdr && !other, "R6", fname(al)+":hdr+len+padding", c.fpos(al), "(*AVP).Len() = header length + Data.Len() + Data.Padding() of the current value", "(*AVP).Len() is not computed as header length + Data.Len() + Data.Padding() of the AVP's current value (e.g. a cached length): after the value changes, MessageLength and buffer sizes no longer equal the serialised size")
 	}
 	// Message.Len = HeaderLength + Σ a.Len()
 	if ml := c.P.Method("diam", "Message", "Len"); ml != nil {
